@@ -2,13 +2,15 @@
 \* C07 / C16 by TREE size: every surface syntax tree up to MaxSize nodes, with up to MaxParens redundantly
 \* parenthesised nodes, unparsed to a sentence; the parser must give back exactly this tree.
 EXTENDS GramUnparse, Json
-CONSTANTS MaxSize, MaxParens, Kinds, BinOps
-VARIABLES pre, pending, size, parens
-Init == pre = <<>> /\ pending = 1 /\ size = 0 /\ parens = 0
-Fill(label, slots, par) == /\ pending > 0 /\ size + pending + slots <= MaxSize /\ parens + (IF par THEN 1 ELSE 0) <= MaxParens
-                           /\ pre' = Append(pre, [label EXCEPT !.p = par]) /\ pending' = pending - 1 + slots /\ size' = size + 1
-                           /\ parens' = parens + (IF par THEN 1 ELSE 0)
-L(k) == [k |-> k, p |-> FALSE, op |-> "", imp |-> FALSE, ann |-> FALSE]
+CONSTANTS MaxSize, MaxParens, Kinds, BinOps, MaxDrops   \* MaxDrops: nodes whose REQUIRED parentheses are left out (0 = sentences only)
+VARIABLES pre, pending, size, parens, drops
+Init == pre = <<>> /\ pending = 1 /\ size = 0 /\ parens = 0 /\ drops = 0
+Fill(label, slots, par) == \E np \in (IF par THEN {FALSE} ELSE BOOLEAN) :
+                           /\ pending > 0 /\ size + pending + slots <= MaxSize /\ parens + (IF par THEN 1 ELSE 0) <= MaxParens
+                           /\ drops + (IF np THEN 1 ELSE 0) <= MaxDrops
+                           /\ pre' = Append(pre, [label EXCEPT !.p = par, !.np = np]) /\ pending' = pending - 1 + slots /\ size' = size + 1
+                           /\ parens' = parens + (IF par THEN 1 ELSE 0) /\ drops' = drops + (IF np THEN 1 ELSE 0)
+L(k) == [k |-> k, p |-> FALSE, np |-> FALSE, op |-> "", imp |-> FALSE, ann |-> FALSE]
 Next == \E par \in BOOLEAN :
         \/ \E k \in {"var", "lit", "type", "true"} \cap Kinds : Fill(L(k), 0, par)
         \/ "app" \in Kinds /\ Fill(L("app"), 2, par)
@@ -21,15 +23,27 @@ Next == \E par \in BOOLEAN :
         \/ "let" \in Kinds /\ (Fill([L("let") EXCEPT !.ann = TRUE], 3, par) \/ Fill(L("let"), 2, par))
 RECURSIVE Build(_)
 Build(q) == LET h == Head(q) r == Tail(q) IN
-  CASE h.k \in {"var", "lit", "type", "true"} -> [t |-> [k |-> h.k, p |-> h.p], r |-> r]
-    [] h.k \in {"app", "ndpi"} -> LET a == Build(r) b == Build(a.r) IN [t |-> [k |-> h.k, p |-> h.p, a |-> a.t, b |-> b.t], r |-> b.r]
-    [] h.k = "bin" -> LET a == Build(r) b == Build(a.r) IN [t |-> [k |-> "bin", op |-> h.op, p |-> h.p, a |-> a.t, b |-> b.t], r |-> b.r]
-    [] h.k = "neg" -> LET a == Build(r) IN [t |-> [k |-> "neg", p |-> h.p, a |-> a.t], r |-> a.r]
-    [] h.k \in {"lam", "pi"} -> IF h.ann THEN LET a == Build(r) b == Build(a.r) IN [t |-> [k |-> h.k, p |-> h.p, imp |-> h.imp, ann |-> TRUE, a |-> a.t, b |-> b.t], r |-> b.r]
-                                ELSE LET b == Build(r) IN [t |-> [k |-> h.k, p |-> h.p, imp |-> h.imp, ann |-> FALSE, b |-> b.t], r |-> b.r]
-    [] h.k = "if" -> LET c == Build(r) a == Build(c.r) b == Build(a.r) IN [t |-> [k |-> "if", p |-> h.p, c |-> c.t, a |-> a.t, b |-> b.t], r |-> b.r]
-    [] h.k = "let" -> IF h.ann THEN LET a == Build(r) d == Build(a.r) b == Build(d.r) IN [t |-> [k |-> "let", p |-> h.p, ann |-> TRUE, a |-> a.t, d |-> d.t, b |-> b.t], r |-> b.r]
-                      ELSE LET d == Build(r) b == Build(d.r) IN [t |-> [k |-> "let", p |-> h.p, ann |-> FALSE, d |-> d.t, b |-> b.t], r |-> b.r]
+  CASE h.k \in {"var", "lit", "type", "true"} -> [t |-> [k |-> h.k, p |-> h.p, np |-> h.np], r |-> r]
+    [] h.k \in {"app", "ndpi"} -> LET a == Build(r) b == Build(a.r) IN [t |-> [k |-> h.k, p |-> h.p, np |-> h.np, a |-> a.t, b |-> b.t], r |-> b.r]
+    [] h.k = "bin" -> LET a == Build(r) b == Build(a.r) IN [t |-> [k |-> "bin", op |-> h.op, p |-> h.p, np |-> h.np, a |-> a.t, b |-> b.t], r |-> b.r]
+    [] h.k = "neg" -> LET a == Build(r) IN [t |-> [k |-> "neg", p |-> h.p, np |-> h.np, a |-> a.t], r |-> a.r]
+    [] h.k \in {"lam", "pi"} -> IF h.ann THEN LET a == Build(r) b == Build(a.r) IN [t |-> [k |-> h.k, p |-> h.p, np |-> h.np, imp |-> h.imp, ann |-> TRUE, a |-> a.t, b |-> b.t], r |-> b.r]
+                                ELSE LET b == Build(r) IN [t |-> [k |-> h.k, p |-> h.p, np |-> h.np, imp |-> h.imp, ann |-> FALSE, b |-> b.t], r |-> b.r]
+    [] h.k = "if" -> LET c == Build(r) a == Build(c.r) b == Build(a.r) IN [t |-> [k |-> "if", p |-> h.p, np |-> h.np, c |-> c.t, a |-> a.t, b |-> b.t], r |-> b.r]
+    [] h.k = "let" -> IF h.ann THEN LET a == Build(r) d == Build(a.r) b == Build(d.r) IN [t |-> [k |-> "let", p |-> h.p, np |-> h.np, ann |-> TRUE, a |-> a.t, d |-> d.t, b |-> b.t], r |-> b.r]
+                      ELSE LET d == Build(r) b == Build(d.r) IN [t |-> [k |-> "let", p |-> h.p, np |-> h.np, ann |-> FALSE, d |-> d.t, b |-> b.t], r |-> b.r]
 Done == pending = 0
-Emit == Done => LET u == Unparse(Build(pre).t) IN PrintT(<<"SENT", ToJson([y |-> u.toks, ast |-> u.ast, d |-> <<>>])>>)
+RECURSIVE ClearNp(_)
+ClearNp(t) == LET c == [t EXCEPT !.np = FALSE] IN
+  CASE t.k \in {"app", "ndpi", "bin"} -> [c EXCEPT !.a = ClearNp(t.a), !.b = ClearNp(t.b)]
+    [] t.k = "neg" -> [c EXCEPT !.a = ClearNp(t.a)]
+    [] t.k \in {"lam", "pi"} -> IF t.ann THEN [c EXCEPT !.a = ClearNp(t.a), !.b = ClearNp(t.b)] ELSE [c EXCEPT !.b = ClearNp(t.b)]
+    [] t.k = "if" -> [c EXCEPT !.c = ClearNp(t.c), !.a = ClearNp(t.a), !.b = ClearNp(t.b)]
+    [] t.k = "let" -> IF t.ann THEN [c EXCEPT !.a = ClearNp(t.a), !.d = ClearNp(t.d), !.b = ClearNp(t.b)] ELSE [c EXCEPT !.d = ClearNp(t.d), !.b = ClearNp(t.b)]
+    [] OTHER -> c
+\* with a dropped pair of required parentheses the string is emitted WITHOUT a tree (tag NOPAR): whether it is a sentence at
+\* all is decided separately by the derivation machine (MC_Member)
+Emit == Done => LET t == Build(pre).t  u == Unparse(t) IN
+   IF drops = 0 THEN PrintT(<<"SENT", ToJson([y |-> u.toks, ast |-> u.ast, d |-> <<>>])>>)
+   ELSE (u.toks # Unparse(ClearNp(t)).toks => PrintT(<<"NOPAR", ToJson([y |-> u.toks])>>))
 ====
